@@ -49,7 +49,9 @@ Inductive image := INone | IGarbage | IZip (a : archive).
 Record hist := mkHist { maxlen : nat; mem : list item; len : nat; fname : bool; closed : bool }.
 Definition world := (option archive * hist)%type.
 
-Definition init (ml : nat) : world := (None, mkHist ml [] 0 false false).
+(* a fresh object; fs0 = whatever is on disk under the trajectory's name when this life starts
+   (None, or the archive an earlier run left behind: open() removes it, base.py:1003-1005) *)
+Definition init (fs0 : option archive) (ml : nat) : world := (fs0, mkHist ml [] 0 false false).
 
 (* ---------------------------------------------------------------- archive readers *)
 Definition is_coords (m : member) : bool := match m with MCoords _ _ => true | _ => false end.
@@ -169,7 +171,7 @@ Definition step (w : world) (o : op) : world * out :=
   | Open =>                                                               (* base.py:981-1014 *)
       if fname h then (w, OErr ERuntime)                                  (* 989-990 *)
       else if length (mem h) <? len h then (w, OErr ERuntime)             (* 992-996: entries already dropped *)
-      else ((Some [MHeader], mkHist (maxlen h) (mem h) (len h) true (closed h)), ODone)  (* 1003-1013 *)
+      else ((Some [MHeader], mkHist (maxlen h) (mem h) (len h) true (closed h)), ODone)  (* 1003-1013: an existing file is removed, then "w" *)
   | Add x =>                                                              (* base.py:1109-1135 *)
       if closed h then (w, OErr ERuntime)                                 (* 1121-1122 *)
       else
@@ -237,7 +239,7 @@ Fixpoint run (w : world) (ops : list op) : world * list out :=
   | o :: r => let (w1, x) := step w o in
               let (w2, xs) := run w1 r in (w2, x :: xs)
   end.
-Definition exec (ml : nat) (ops : list op) : world := fst (run (init ml) ops).
+Definition exec (fs0 : option archive) (ml : nat) (ops : list op) : world := fst (run (init fs0 ml) ops).
 
 (* ---------------------------------------------------------------- the abstract specification *)
 (* What a trajectory IS: the list of pushed items, whether/when it was opened (how many had been
@@ -332,7 +334,7 @@ Arguments aopen {item par} a.
 Arguments asaved {item par} a.
 Arguments aclosed {item par} a.
 Arguments ainit {item par}.
-Arguments init {item par} ml.
+Arguments init {item par} fs0 ml.
 Arguments prefix {item} a b.
 Arguments push {item} ml m x.
 Arguments mem_neg {item} m k.
